@@ -5,13 +5,82 @@ from lib import common as C, het as H
 GEN = ['HetFacts']
 IMPORTS = ['C08/kernel_weights', 'C08/lottery_1d_laws', 'C08/lottery_2d_laws', 'C08/markov_laws', 'C08/combined_shock_product_rule', 'C17/robust_bracket', 'C17/coord_reproduces_query', 'C17/monotone_equals_robust']
 TRUSTED = ['the economics of the backward functions (only their pointwise budget identity is validated, on every run)', 'C08 (mean-preserving lotteries), C09 (recursions)']
-ASSUMPTIONS = ['the aggregation theorem is proved over Z (a linear identity; valid in every commutative ring); the pointwise budget identity of hh_sim, hh_labor, '
-               'hh_twoasset and the aggregate identities along steady states, nonlinear paths and Jacobian columns are checked on the implementation']
+ASSUMPTIONS = ['the aggregation theorem is proved over Z (a linear identity; valid in every commutative ring) and, for the executable forward pass, over the rationals; the pointwise budget identity of hh_sim, hh_labor, '
+               'hh_twoasset and the aggregate identities along steady states, nonlinear paths and Jacobian columns are checked on the implementation; the executable forward pass covers the one-asset households (1-D lottery), not hh_twoasset']
 HEADER = ''
 
 
+HEADER_FWD = ('From Coq Require Import ZArith QArith Qcanon List Arith Bool.\nFrom SSJ Require Import Model.HetLoop Model.HetPath.\nImport ListNotations.\nOpen Scope nat_scope.\n')
+
+
 def correspondence(ctx):
-    return dict(evaluations=0, distinct_nontrivial=0, rule='none (linear aggregation identity; see oracle)', samples=[], disagreements=[], stats={})
+    """forward pass and aggregation of the shipped one-asset households from their OBSERVED policies: D, Dbeg, aggregates A and C, assets carried in, vs Model/HetPath.v run_forward"""
+    from fractions import Fraction
+    rng = ctx['rng']
+    m = H.load()
+    qf = lambda v: (lambda fr: f'(hq {C.zs(fr.numerator)} {fr.denominator}%positive)')(Fraction(float(v)))
+    qarr = lambda A: C.coq_list(np.asarray(A).tolist(), lambda r: C.coq_list(r, qf))
+    fixtures = [('sim', m.sim, dict(m.SIM_CALIB, min_a=-0.5, n_a=14), ['r', 'w', 'rho_e']), ('labor', m.labor, dict(m.LAB_CALIB, amin=-0.75, nA=14), ['r', 'w', 'Div']),
+                ('sim', m.sim, dict(m.SIM_CALIB, max_a=5.0, n_a=10, beta=0.978), ['r', 'w'])]       # the last: households save beyond the top grid point (the lottery extrapolates)
+    reps = 3 if ctx['tier'] == 'quick' else 16
+    cases, exprs, dis = [], [], []
+    for name, blk, calib, shockable in fixtures:
+        ss = blk.steady_state(calib)
+        base = ss.internals[blk.name]
+        g = base['a_grid']
+        for _ in range(reps):
+            T = rng.randint(3, 4)
+            shocks = {k: np.array([rng.choice([0.0, 0.004, -0.003, 0.01]) for _ in range(T)]) for k in shockable if rng.random() < 0.7} or {'r': np.full(T, 0.004)}
+            td = blk.impulse_nonlinear(ss, shocks, internals={blk.name: ['a', 'c', 'D', 'Dbeg', 'Pi']})
+            it = td.internals[blk.name]
+            lev = {k: it[k] + base[k] for k in ('a', 'c', 'D', 'Dbeg', 'Pi')}
+            exprs.append(f'run_forward_steps {lev["a"].shape[1]} {len(g)} {C.coq_list(g, qf)} {C.coq_list(list(lev["Pi"]), qarr)} {C.coq_list(list(lev["a"]), qarr)} {C.coq_list(list(lev["c"]), qarr)} '
+                         f'{C.coq_list(list(lev["Dbeg"]), qarr)} {C.coq_list(list(lev["D"]), qarr)}')
+            cases.append(dict(block=name, calib={k: v for k, v in calib.items() if np.isscalar(v)}, T=T, shocked=sorted(shocks), lev=lev, A=td['A'] + ss['A'], Cc=td['C'] + ss['C'], g=g, Dbeg0=base['Dbeg'],
+                              off_grid=bool((lev['a'] > g[-1]).any() or (lev['a'] < g[0]).any())))
+    vals, logs = C.eval_in_coq('C13', HEADER_FWD, exprs, chunk=1, tag='fwd')
+    fr = lambda x: Fraction(int(x[0]), int(x[1]))
+    A2 = lambda Mx: np.array([[float(fr(x)) for x in r] for r in Mx])
+    def flat6(x):            # Coq prints a left-nested 6-tuple flat; guard against other nestings
+        out = []
+        def rec(y):
+            if isinstance(y, tuple) and len(y) == 2 and not (isinstance(y[0], int) and isinstance(y[1], int)):
+                rec(y[0]); out.append(y[1])
+            else:
+                out.append(y)
+        rec(x)
+        return out
+    for c, vm in zip(cases, vals):
+        lev = c.pop('lev')
+        if vm is None:
+            continue
+        bad = []
+        if not np.array_equal(lev['Dbeg'][0], c['Dbeg0']):
+            bad.append('the path does not start from the initial distribution')
+        for t in range(c['T']):
+            D_m, Dnext_m, A_m, C_m, car_m, carnext_m = vm[t] if len(vm[t]) == 6 else flat6(vm[t])
+            if np.abs(A2(D_m) - lev['D'][t]).max() > 1e-12:
+                bad.append(f'D[{t}] is not Dbeg[{t}] pushed through the Markov matrix of date {t}')
+            if t + 1 < c['T'] and np.abs(A2(Dnext_m) - lev['Dbeg'][t + 1]).max() > 1e-12:
+                bad.append(f'Dbeg[{t + 1}] is not D[{t}] pushed through the asset policy of date {t}')
+            if abs(float(fr(A_m)) - c['A'][t]) > 1e-10 * max(1, abs(c['A'][t])) or abs(float(fr(C_m)) - c['Cc'][t]) > 1e-10 * max(1, abs(c['Cc'][t])):
+                bad.append(f'aggregates at date {t}')
+            if abs(float(fr(car_m)) - np.vdot(lev['Dbeg'][t], np.broadcast_to(c['g'], lev['Dbeg'][t].shape))) > 1e-10:
+                bad.append(f'assets carried into date {t}')
+            if fr(carnext_m) != fr(A_m):
+                bad.append(f'model: assets carried out of date {t} != A[{t}] (contradicts the theorem)')
+        c.pop('g'); c.pop('Dbeg0')
+        c['A'], c['Cc'] = c['A'].tolist(), c['Cc'].tolist()
+        if bad:
+            dis.append(dict(what='forward pass / aggregation of a shipped household differs from the executable model run on its observed policies', case=dict(c, differing=bad[:6])))
+    for l in logs:
+        dis.append(dict(what='coq evaluation failed', log=l))
+    return dict(evaluations=len(exprs), distinct_nontrivial=len({C.canon([c['block'], c['calib'], c['shocked'], c['T']]) for c in cases}),
+                rule='shipped hh_sim and hh_labor (3 income states, 10-14 asset points, negative borrowing limits, one coarse grid on which savers leave the grid at the top): nonlinear impulses to r, w, rho_e/Div over 3-4 dates; '
+                     'date by date the executable model is given the observed Markov matrix, asset policy, consumption and distributions and must reproduce D_t from Dbeg_t and Dbeg_{t+1} from D_t (1e-12), the aggregates A_t, C_t '
+                     'and the assets carried into each date (1e-10); inside the model, assets carried out of date t equal A_t exactly (the theorem)',
+                samples=[{k: v for k, v in cases[0].items() if k in ('block', 'calib', 'T', 'shocked', 'off_grid')}] if cases else [], disagreements=dis,
+                stats=dict(off_grid_cases=sum(int(c['off_grid']) for c in cases)))
 
 
 def pointwise(name, d, t=None):
